@@ -189,6 +189,7 @@ static void deliver_ps(int s, const m_evt_t *e, int idx_in_inv, int *is_trigger_
     for (int i = p - 1; i >= 0; i--) if (m->mb[i].optional && m->mb[i].kind == 0) { mb_remove(s, i); p--; }
     pend_t pe = m->mb[p]; mb_remove(s, p);
     msg_t *g = &MSG[pe.msg];
+    for (int q = 0; q < NPAT; q++) if ((pe.pats & (1u << q)) && !(m->sub[q].present && (unsigned char)m->sub[q].gen == pe.gens[q])) m->life |= 16384;      /* delivered under a subscription object that is gone or was replaced: a path of its own in the library */
     if (pe.after_pill && ON(R_PILL)) vfail("PS.pill", "PS.pill|late", "%s received message #%d which was sent to it after a poison pill", m->name, pe.msg);
     if (ps->sender) {      /* the sender stays a valid object (ZOMBIE if deregistered meanwhile) for as long as its message is undelivered */
         const char *nm = m_mod_name(ps->sender);
@@ -202,7 +203,7 @@ static void deliver_ps(int s, const m_evt_t *e, int idx_in_inv, int *is_trigger_
     else {
         for (int q = 0; q < NPAT; q++) if (pe.pats & (1u << q)) for (int v = 0; v < 2; v++) if (UPVH[s][q] && m->sub[q].present && m->sub[q].af ? (v == 0 && e->userdata == UPVH[s][q]) : e->userdata == &UPV[s][q][v]) {
             found = 1; prio = pe.prio >= 0 ? pe.prio : (m->sub[q].present ? m->sub[q].prio : PR_NORM);
-            if (m->sub[q].present && m->sub[q].oneshot) { m->sub[q].present = 0; TRACE("one-shot subscription %s of %s consumed", PAT[q], m->name); }
+            if (m->sub[q].present && m->sub[q].oneshot && (unsigned char)m->sub[q].gen == pe.gens[q]) { m->sub[q].present = 0;      /* only the subscription the message was sent under is used up */ TRACE("one-shot subscription %s of %s consumed", PAT[q], m->name); }
         }
         if (!found) vfail("EV.owner", "EV.owner|ps-userdata", "%s: message on topic %s delivered with a user pointer that belongs to none of its matching subscriptions", m->name, ps->topic ? ps->topic : "NULL");
     }
